@@ -268,8 +268,19 @@ def _run_scenario(inst, res):
                             res['notes'].append(f'(a2) model {mm} does not reproduce')
                     elif r != 'unsat' and res['status'] == HOLDS:
                         res['status'] = INCONCLUSIVE
-            # masked <=> no valid set; masked scenarios are not listed
+            # masked <=> no valid set (solver: Spec unsatisfiable over all non-negative integer matrices)
             masked = (k_pat == -1)
+            res['obligations'] += 1
+            spec_sat = prover.satisfiable(*pre, spec_a.formula(T))
+            if spec_sat == 'unknown':
+                if res['status'] == HOLDS:
+                    res['status'] = INCONCLUSIVE
+            elif (spec_sat == 'unsat') != masked:
+                _viol(res, 'scenario', dict(kind='feasible_scenario_masked' if masked else 'infeasible_scenario_not_masked', **sig), cfg,
+                      dict(i_comb=i_comb, connectors=[str(c) for c in srcs+tgts]), dict(masked=masked, exist_map=k_pat, n_offered=len(offered_a)),
+                      dict(valid_connection_set_exists=spec_sat == 'sat'))
+            else:
+                res['discharged'] += 1
             if masked != (not bool(feas_mask[i_comb])) and len(gp.connection_choice_nodes) == 1:
                 _viol(res, 'scenario', dict(kind='mask_inconsistent', **sig), cfg, dict(i_comb=i_comb), dict(exist_map=k_pat, mask=bool(feas_mask[i_comb])), 'consistent')
 
